@@ -17,8 +17,9 @@ from twisted.python.failure import Failure
 from .. import common, tlc
 from .. import xferworld as X
 
-T_PROJ = "[cfg |-> cfg, out |-> out, prompted |-> prompted, sent |-> sent]"
-INVARIANTS = ["VerifyGate", "RefusedNoSuccess", "TextDelivered", "WrongCodeSilent", "AskedWhenDue", "ErrorMeansFailure"]
+T_PROJ = "[cfg |-> cfg, out |-> out, prompted |-> prompted, sent |-> sent, told |-> told]"
+INVARIANTS = ["VerifyGate", "RefusedNoSuccess", "TextDelivered", "WrongCodeSilent", "AskedWhenDue", "ErrorMeansFailure",
+              "ZeroPrintsNoCode", "ReceiverTellsOnlyWhenAllocated", "CodeBeforeAnything"]
 
 
 def kind_of(data):
@@ -35,11 +36,28 @@ def kind_of(data):
 class RecordingWormhole:
     """what a command sees of its wormhole, with every step of the protocol noted in the order it happens"""
 
-    def __init__(self, w, side, note):
-        self._w, self._side, self._note = w, side, note
+    def __init__(self, w, side, note, told_of=None):
+        self._w, self._side, self._note, self._told_of = w, side, note, told_of
+        self._coded = False
 
     def __getattr__(self, name):
         return getattr(self._w, name)
+
+    def get_code(self):
+        """the first get_code() of a command: once it fired *and the command has done everything it does with the code at once*
+        (print the command line for the other user), the step is noted with what the user was told by then"""
+        from twisted.internet.defer import Deferred
+        d = self._w.get_code()
+        if self._coded or self._told_of is None:
+            return d
+        self._coded = True
+        d2 = Deferred()
+
+        def fired(c):
+            d2.callback(c)
+            self._note(("Code", self._side, self._told_of(self._side)[0]))
+        d.addCallbacks(fired, d2.errback)
+        return d2
 
     def get_verifier(self):
         d = self._w.get_verifier()
@@ -91,7 +109,27 @@ def run_config(tid, cfg, seed):
     os.makedirs(sdir)
     os.makedirs(rdir)
     events = []
-    state = {"out": {"S": "-", "R": "-"}, "prompted": {"S": "-", "R": "-"}, "sent": {"S": [], "R": []}}
+    state = {"out": {"S": "-", "R": "-"}, "prompted": {"S": "-", "R": "-"}, "sent": {"S": [], "R": []}, "told": {"S": "-", "R": "-"}}
+    world = {}
+
+    def told_of(side):
+        """(class, argv) of the command line that side has printed for the other user so far"""
+        c = world.get("send_cfg" if side == "S" else "recv_cfg")
+        text = c.stderr.getvalue() if c is not None else ""
+        cmd = None
+        lines_ = text.split("\n")
+        for i, l in enumerate(lines_):
+            if "please run:" in l:
+                rest = [x.strip() for x in lines_[i + 1:] if x.strip()]
+                cmd = rest[0] if rest else None
+        if cmd is None or not cmd.startswith("wormhole "):
+            return "-", None
+        toks = cmd.split()[2:]
+        import re as _re
+        if any(_re.match(r"^\d+-", t) for t in toks):
+            return "code", toks
+        return ("zero", toks) if "-0" in toks else ("other", toks)
+
     lines = []
 
     def note(ev):
@@ -103,11 +141,13 @@ def run_config(tid, cfg, seed):
             state["prompted"][p] = x
         elif a == "Send":
             state["sent"][p] = state["sent"][p] + [x]
+        elif a == "Code":
+            state["told"][p] = x
         lines.append({"a": list(ev), "proj": {"cfg": cfg, "out": dict(state["out"]), "prompted": dict(state["prompted"]),
-                                              "sent": {k: list(v) for k, v in state["sent"].items()}}})
+                                              "sent": {k: list(v) for k, v in state["sent"].items()}, "told": dict(state["told"])}})
     orig = (cmd_send.create, cmd_receive.create, builtins.input)
-    cmd_send.create = lambda *a, **kw: RecordingWormhole(wmod.create(*a, **kw), "S", note)
-    cmd_receive.create = lambda *a, **kw: RecordingWormhole(wmod.create(*a, **kw), "R", note)
+    cmd_send.create = lambda *a, **kw: RecordingWormhole(wmod.create(*a, **kw), "S", note, told_of)
+    cmd_receive.create = lambda *a, **kw: RecordingWormhole(wmod.create(*a, **kw), "R", note, told_of)
 
     def user(prompt=""):
         if "Verifier" in prompt:
@@ -138,11 +178,41 @@ def run_config(tid, cfg, seed):
                 f.write("already here")
         extra = ("--verify",) if cfg["verify"] else ()
         order = seed % 2
-        starts = [lambda: w.start_send(sdir, what=None if cfg["mode"] == "text" else name, text="hello there" if cfg["mode"] == "text" else None,
-                                       code="1-abc", extra=extra),
-                  lambda: w.start_receive(rdir, code="1-abc" if cfg["match"] else "1-abd", accept=(cfg["accept"] == "flag"))]
-        for f in (starts if order == 0 else starts[::-1]):
-            f()
+        flow = cfg.get("flow", "given")
+        what, text = (None if cfg["mode"] == "text" else name), ("hello there" if cfg["mode"] == "text" else None)
+        acc = (cfg["accept"] == "flag")
+
+        def ssend(code, more=()):
+            w.start_send(sdir, what=what, text=text, code=code, extra=extra + tuple(more))
+            world["send_cfg"] = w.send_cfg
+
+        def srecv(code, more=()):
+            w.start_receive(rdir, code=code, accept=acc, extra=tuple(more))
+            world["recv_cfg"] = w.recv_cfg
+
+        def printed_argv(side):
+            """the other command exactly as that side's user was told to run it (flags and code of the printed line)"""
+            w.run(until=lambda: state["told"][side] != "-" or w.done(), max_virtual=600.0)
+            toks = told_of(side)[1] or []
+            code = next((t for t in toks if t[:1].isdigit() and "-" in t), None)
+            flags = [t for t in toks if t.startswith("-") and t not in ("--code",)]
+            return code, flags
+        if flow == "given":
+            starts = [lambda: ssend("1-abc"), lambda: srecv("1-abc" if cfg["match"] else "1-abd")]
+            for f in (starts if order == 0 else starts[::-1]):
+                f()
+        elif flow == "zeromix":
+            starts = [lambda: ssend(None, ("-0",)), lambda: srecv("0-abc")]
+            for f in (starts if order == 0 else starts[::-1]):
+                f()
+        elif flow in ("salloc", "zero"):
+            ssend(None, ("-0",) if flow == "zero" else ())
+            code, flags = printed_argv("S")
+            srecv(code, flags)
+        else:
+            srecv(None, ("--allocate",))
+            code, flags = printed_argv("R")
+            ssend(code)
         finished = w.run(until=w.done, max_virtual=600.0)
         internal = ["%s: %s" % (type(e).__name__, str(e)[:80]) for _, e in w.internal]
         printed = w.recv_cfg.stdout.getvalue()
@@ -165,7 +235,16 @@ def configs(quick):
                             continue            # (with codes that differ nothing else is ever looked at)
                         if quick and mode == "dir" and (verify or exists) and accept != "flag":
                             continue
-                        out.append({"mode": mode, "verify": verify, "sanswer": sanswer, "accept": accept, "match": match, "exists": exists})
+                        out.append({"mode": mode, "verify": verify, "sanswer": sanswer, "accept": accept, "match": match, "exists": exists,
+                                    "flow": "given"})
+    # how the sides come by their code (the other command is started exactly as the printed command line says)
+    for flow in ("salloc", "ralloc", "zero", "zeromix"):
+        for mode in ("text", "file"):
+            for verify in (False, True):
+                if flow == "ralloc" and verify:
+                    continue            # (`receive --allocate` prints a plain `wormhole send` line: --verify is the sender's own choice)
+                out.append({"mode": mode, "verify": verify, "sanswer": "yes", "accept": "flag", "match": flow != "zeromix", "exists": False,
+                            "flow": flow})
     return out
 
 
@@ -233,6 +312,17 @@ def run_family(wd, quick, seed):
     # the text really printed (XferProto's `printed` is not in the projection: checked here on the runs themselves)
     text_ok = all(("hello there" in n["printed"]) == (n["events"].count(["Done", "S", "ok"]) > 0 or "hello there" in n["printed"])
                   for n in notes.values() if n["cfg"]["mode"] == "text")
+    flows = {}
+    for t, n in notes.items():
+        fl = n["cfg"].get("flow", "given")
+        e = flows.setdefault(fl, {"runs": 0, "both_ok": 0, "told": {}})
+        e["runs"] += 1
+        e["both_ok"] += int(["Done", "S", "ok"] in n["events"] and ["Done", "R", "ok"] in n["events"])
+        for ev in n["events"]:
+            if ev[0] == "Code":
+                k = "%s:%s" % (ev[1], ev[2])
+                e["told"][k] = e["told"].get(k, 0) + 1
+    cov["code_flows"] = flows
     cov.update(runs=len(traces), accepted=accepted, rejected=rejected, not_finished_or_internal=unfinished[:6], errors=errors[:4],
                text_sender_ok_implies_printed=all((["Done", "S", "ok"] not in n["events"]) or ("hello there" in n["printed"])
                                                   for n in notes.values() if n["cfg"]["mode"] == "text") and text_ok,
